@@ -45,6 +45,9 @@ RULE = ("random cases in blocks: a dataset (1-4 dimensions, axis lengths 1-4 (th
         "all axes / (), finite, positive, n_chunk_max from 1 up) or a histogram query (attribute kind, weights, range "
         "kind incl. reversed / data-valued ends / integer-aligned edges, 1-12 bins, linear or log, selection kind; one in "
         "five over two attributes); "
+        "plus pixel-aligned blocks (2-3 datasets without coordinates whose pixel axes are linked by LinkSame up to an axis "
+        "permutation - identity, swaps, 3-d cyclic - with masks, all six statistics (view None and with views, every axis "
+        "kind) and histograms of one dataset under a SliceSubsetState / PixelSubsetState defined on the other), "
         "plus magnitude blocks (an attribute spanning three decades below each of 0.003, 0.5, 1, 50, 3e4, 1e8, 2.5e8, 7e10, "
         "1e12, histogrammed 1-d / 2-d / through the viewer layer in log and linear space over its own min/max or two of "
         "its values), plus a grid over 5 fixed shapes x every kept axis x every n_chunk_max 1..size+1 x 8 selection kinds x 6 "
@@ -347,12 +350,18 @@ def structural(feats):
     return {k: v for k, v in feats.items() if k not in ("stat", "finite", "positive", "attr_is_broadcast")}
 
 
-def run_stat_query(ctx, rng, ds, q, api="compute_statistic", indexed=None):
-    """Builds the selection, calls the real code, compares.  `indexed` = (IndexedData, indices) for the derived-data API."""
-    sel = checked_selection(ctx, rng, ds, q["sel_kind"], q.get("kept_axis"))
+def run_stat_query(ctx, rng, ds, q, api="compute_statistic", indexed=None, sel=None, extra_feats=None,
+                   shortcut_slices=None):
+    """Builds the selection (or takes a prepared (state, reference mask)), calls the real code, compares.
+    `indexed` = (IndexedData, indices) for the derived-data API.  `shortcut_slices`: for a slice-based state, the
+    slices in the axes of this dataset (used to tell the shortcut's known shape deviation from wrong values)."""
+    if sel is None:
+        sel = checked_selection(ctx, rng, ds, q["sel_kind"], q.get("kept_axis"))
     if sel is None:
         return
     state, fullmask = sel
+    if shortcut_slices is None and isinstance(state, SliceSubsetState) and state.reference_data is ds.data:
+        shortcut_slices = list(state.slices)
     view = q["view"]
     full = ds.raw[q["attr"]]
     if indexed is not None:
@@ -377,6 +386,8 @@ def run_stat_query(ctx, rng, ds, q, api="compute_statistic", indexed=None):
              "view_zero_size": vals.size == 0, "selection_hits_view": bool(mask.any()) and q["sel_kind"] != "none",
              "selection_present": q["sel_kind"] != "none", "axis_given": q["axis"] is not None}
     feats.update(view_features(view, ds.shape))
+    if extra_feats:
+        feats.update(extra_feats)
     if indexed is not None:
         feats["view_has_int"] = True      # the derived dataset turns its indices into integers of the view
     # ---- domain
@@ -456,6 +467,20 @@ def run_stat_query(ctx, rng, ds, q, api="compute_statistic", indexed=None):
     if g.shape != exp.shape:
         sig = structural(feats)
         sig.update({"kind": "shape_mismatch", "got_scalar": g.ndim == 0})
+        if shortcut_slices is not None and view is None and indexed is None:
+            # the SliceSubsetState shortcut reduces the selected sub-array (known shape deviation); its values must
+            # still be the reduction of exactly the selected sub-array
+            sl = tuple(shortcut_slices)
+            sub, ksub = vals[sl], keep[sl]
+            if sub.size == 0:
+                ok_sub = g.ndim == 0 and bool(np.isnan(g))
+            else:
+                esub = ref_statistic(q["stat"], sub, ksub, q["axis"], q["pct"])
+                ok_sub = g.shape == esub.shape and close(g, esub)
+            ctx.count("stat_shortcut_subarray_compared")
+            if not ok_sub:
+                sig = dict(feats)
+                sig.update({"kind": "shortcut_result_is_not_the_reduction_of_the_selected_subarray"})
         ctx.violation(sig, witness({"got": g, "got_shape": g.shape, "expected_shape": exp.shape}))
         return
     if not close(g, exp):
@@ -977,6 +1002,100 @@ def run_hist_through_layer(ctx, rng, ds, q, sel=None):
             ds.dc.remove_subset_group(g)
 
 
+# ---------------------------------------------------------------- pixel-aligned datasets
+PERMS = {2: [((0, 1), "identity"), ((1, 0), "swap"), ((1, 0), "swap")],
+         3: [((0, 1, 2), "identity"), ((0, 2, 1), "swap"), ((2, 1, 0), "swap"), ((1, 0, 2), "swap"),
+             ((1, 2, 0), "cyclic"), ((2, 0, 1), "cyclic"), ((1, 2, 0), "cyclic"), ((2, 0, 1), "cyclic")]}
+
+
+def run_aligned_block(ctx, tier):
+    """Datasets without coordinates whose pixel axes are linked one to one (LinkSame) up to an axis permutation;
+    statistics / masks / histograms of an attribute of dataset B (or C) under a SliceSubsetState / PixelSubsetState
+    defined on dataset A.  Axis i of B is axis perm[i] of A."""
+    from glue.core.link_helpers import LinkSame
+    from glue.viewers.image.pixel_selection_subset_state import PixelSubsetState
+    rng = ctx.rng
+    for _ in range(3):
+        nd = rng.choice([2, 3, 3])
+        top = 4 if tier == "quick" else 5
+        lens = list(range(2, top + 1))
+        rng.shuffle(lens)
+        shape_a = tuple(lens[:nd]) if rng.random() < 0.7 else tuple(rng.randint(1, top) for _ in range(nd))
+        ds_a = make_dataset(rng, tier, shape=shape_a, coords="none", with_collection=True)
+        others = []
+        for label in ("b", "c")[:rng.choice([1, 1, 2])]:
+            perm, pname = rng.choice(PERMS[nd])
+            ds_b = make_dataset(rng, tier, shape=tuple(shape_a[p] for p in perm), coords="none")
+            ds_b.data.label = label
+            ds_a.dc.append(ds_b.data)
+            for i in range(nd):
+                ds_a.dc.add_link(LinkSame(ds_b.data.pixel_component_ids[i], ds_a.data.pixel_component_ids[perm[i]]))
+            ds_b.dc = ds_a.dc
+            others.append((ds_b, perm, pname))
+        for ds_b, perm, pname in others:
+            order = ds_b.data.pixel_aligned_data.get(ds_a.data)
+            if order is None or list(order) != list(perm):
+                ctx.count("excluded_aligned_pair_not_recognised_as_pixel_aligned")
+                continue
+            ctx.count("aligned_pairs_%s" % pname)
+            for k in range(12):
+                # a slice-based selection on A, seen from B
+                if rng.random() < 0.3:
+                    sl_a = [slice(None)] * nd
+                    for ax in rng.sample(range(nd), rng.randint(1, nd)):
+                        p0 = rng.randrange(shape_a[ax])
+                        sl_a[ax] = slice(p0, p0 + 1)
+                    state, cls = PixelSubsetState(ds_a.data, list(sl_a)), "PixelSubsetState"
+                else:
+                    sl_a = rand_state_slices(rng, shape_a, allow_short=False)
+                    state, cls = SliceSubsetState(ds_a.data, list(sl_a)), "SliceSubsetState"
+                mask_a = np.zeros(shape_a, bool)
+                mask_a[tuple(sl_a)] = True
+                mask_b = np.transpose(mask_a, perm)
+                sl_b = [sl_a[p] for p in perm]
+                extra = {"selection_defined_on": "pixel_aligned_dataset", "axis_permutation": pname, "state_class": cls}
+                wrap = rng.random()
+                sel_kind, shortcut = "slice_state", sl_b
+                if wrap < 0.15:
+                    state, mask_b, sel_kind, shortcut = ~state, ~mask_b, "not_slice", None
+                # the mask itself, for comparison
+                ctx.count("aligned_mask_compared")
+                try:
+                    gm = np.asarray(ds_b.data.get_mask(state))
+                    okm = gm.shape == mask_b.shape and bool(np.array_equal(gm, mask_b))
+                except Exception as exc:
+                    ctx.violation(dict(extra, api="get_mask", kind="exception", exc=type(exc).__name__, selection=sel_kind),
+                                  {"shape_a": shape_a, "perm": perm, "slices_a": describe_view(tuple(sl_a)), "error": repr(exc)})
+                    continue
+                if not okm:
+                    ctx.violation(dict(extra, api="get_mask", kind="mask_mismatch", selection=sel_kind),
+                                  {"shape_a": shape_a, "perm": perm, "slices_a": describe_view(tuple(sl_a)), "got": gm,
+                                   "expected": mask_b})
+                    continue
+                sel = (state, mask_b)
+                if k % 4 == 3:
+                    qh = random_hist_query(rng, ds_b, mask_b)
+                    qh["sel_kind"] = sel_kind
+                    run_hist_query(ctx, rng, ds_b, qh, sel=sel)
+                    ctx.count("aligned_hist_queries")
+                    continue
+                q = random_stat_query(rng, ds_b)
+                q["sel_kind"] = sel_kind
+                q["kept_axis"] = None
+                if k % 2 == 0:
+                    # view None: the to_array shortcut; every axis kind
+                    q["view_kind"], q["view"] = "none", None
+                    q["axis"], q["axis_kind"] = axis_choice(rng, nd)
+                    if rng.random() < 0.5:
+                        q["axis"], q["axis_kind"] = None, "none"
+                ctx.count("aligned_stat_queries")
+                ctx.count("aligned_stat_%s" % pname)
+                if q["view"] is None and sel_kind == "slice_state":
+                    ctx.count("aligned_stat_shortcut_%s" % pname)
+                run_stat_query(ctx, rng, ds_b, q, sel=sel, extra_feats=extra, shortcut_slices=shortcut)
+    ctx.count("aligned_blocks")
+
+
 # ---------------------------------------------------------------- magnitudes
 # upper range ends across magnitudes; the range is the data's own min/max, so selected values equal both ends
 MAGNITUDES = [0.003, 0.5, 1.0, 50.0, 3e4, 1e8, 2.5e8, 7e10, 1e12]
@@ -1077,6 +1196,7 @@ def setup(ctx):
 def cases(tier, seed):
     grid = [["grid", si, sk] for si in range(len(GRID_SHAPES)) for sk in GRID_SELECTIONS]
     grid += [["mag", mi, rep] for rep in range(1 if tier == "quick" else 8) for mi in range(len(MAGNITUDES))]
+    grid += [["aligned", i] for i in range(24 if tier == "quick" else 240)]
     ns, nh, nv = N_STAT_BLOCKS[tier], N_HIST_BLOCKS[tier], N_VIEWER_BLOCKS[tier]
     # interleave so that every shard (and a run cut by the time cap) sees every class
     streams = [iter(grid), iter(["viewer", i] for i in range(nv)), iter(["hist", i] for i in range(nh)),
@@ -1107,6 +1227,8 @@ def run_case(ctx, case):
         run_grid(ctx, ctx.tier, case[1], case[2])
     elif kind == "viewer":
         run_viewer_block(ctx, ctx.tier)
+    elif kind == "aligned":
+        run_aligned_block(ctx, ctx.tier)
     elif kind == "mag":
         run_magnitude_block(ctx, ctx.tier, case[1])
     else:
@@ -1116,7 +1238,8 @@ def run_case(ctx, case):
 def floors(counters, tier):
     out = []
     need = {"stat_compared": 1500, "hist_compared": 800, "hist2d_compared": 150, "magnitude_hist_large_log": 25,
-            "magnitude_hist_large_linear": 10, "hist_value_at_positive_log_upper_end": 40, "stat_chunking_chunked_reduction": 300,
+            "magnitude_hist_large_linear": 10, "aligned_stat_cyclic": 60, "aligned_stat_swap": 60,
+            "aligned_stat_shortcut_cyclic": 25, "aligned_mask_compared": 150, "aligned_hist_queries": 30, "hist_value_at_positive_log_upper_end": 40, "stat_chunking_chunked_reduction": 300,
             "stat_minimal_subarray_configuration": 400, "stat_padding_configuration": 200,
             "stat_slice_state_shortcut_configuration": 40, "stat_nothing_qualifies": 50, "stat_zero_size_view": 30,
             "hist_log": 50, "hist_weighted": 100, "hist_reversed_range": 50, "hist_cases_with_edge_coincident_values": 30,
